@@ -66,7 +66,10 @@ def linear_loop(ctx: Ctx, rep: Report, f: Func, loop: Node, what: str, allow_zer
         if len(places) == 1:
             rep.ok(f"{f.qualname} [{what}]: path [{label}]", f"element placed once ({places[0][0]})", where=where(f, loop.ast))
         elif len(places) == 0 and poss is not None and poss <= allow_zero_for:
-            rep.ok(f"{f.qualname} [{what}]: path [{label}]", f"element dropped only when it is a {'/'.join(sorted(poss))} (repeated heading remark: accepted, pinned by the suite and CHANGELOG 3.2.4)", nontrivial=False, where=where(f, loop.ast))
+            # a heading remark whose text is already the key of a block: the remark is dropped and what follows it joins the
+            # FIRST block of that name (entries move up).  A violation of "never drops an entry" (C15) and of "valid lines
+            # are never dropped" (C12) - listed as a known finding: the suite pins it (test_valid__group, LINE_DUPLICATE_REMARKS)
+            rep.violation(f.qualname, f"{what}: a repeated heading remark is not placed", "a heading remark whose text equals an earlier heading is dropped, and the entries after it are appended to the first block of that name: an entry is lost and later entries move in front of earlier ones (first-match decisions can change)", where(f, loop.ast), inp="Acl('ip access-list extended A\\n remark === X\\n permit tcp any any eq 1\\n remark === Y\\n deny tcp any any\\n remark === X\\n permit tcp any any eq 3', group_by='=== ')  -> 5 items: X, eq 1, eq 3, Y, deny")
         else:
             who = "/".join(sorted(poss)) if poss else "an entry"
             rep.violation(
